@@ -19,6 +19,11 @@ import (
 // Sites that only maintenance goroutines reach (the foreground program below issues writes and reads only).
 var frozenSitePrefixes = []string{"storage.rotate.", "storage.flush.", "storage.flushtable.", "sstable.", "compaction.", "wal.close."}
 
+// Sites only the writing (foreground) goroutine reaches. Parking it there while maintenance goes on is the
+// mirror image: a write that is half-way (in the log but not in memory, between two inserts of a batch, ...)
+// at the instant the directory is copied, with flushes, rotations and compactions completing meanwhile.
+var foregroundSitePrefixes = []string{"storage.put.", "storage.delete.", "storage.batch.", "storage.write.", "storage.schedflush.", "tx.commit.", "wal.append.", "wal.batch.", "wal.frag.", "wal.sync."}
+
 // c02Frozen explores process-death instants that the kill enumeration only reaches by luck: a maintenance
 // goroutine (background flush, log rotation, table write, compaction) is stopped at the k-th hit of a hook
 // site while the foreground goes on writing for a few more units. At that moment the database directory is
@@ -71,24 +76,35 @@ func c02Frozen(c *core.Ctx, res *core.Result) {
 	var frozenAt atomic.Pointer[string]
 	release := make(chan struct{})
 	var relMu sync.Mutex
-	seen := map[string]int{}
+	seen, seenFg := map[string]int{}, map[string]int{}
 	var seenMu sync.Mutex
+	var fgParked atomic.Bool
 	verifhook.Set(func(site string) {
-		isM := false
+		isM, isF := false, false
 		for _, p := range frozenSitePrefixes {
 			if strings.HasPrefix(site, p) {
 				isM = true
 				break
 			}
 		}
-		if !isM {
+		for _, p := range foregroundSitePrefixes {
+			if !isM && strings.HasPrefix(site, p) {
+				isF = true
+				break
+			}
+		}
+		if !isM && !isF {
 			return
 		}
 		seenMu.Lock()
-		seen[site]++
+		if isM {
+			seen[site]++
+		} else {
+			seenFg[site]++
+		}
 		seenMu.Unlock()
 		a := armed.Load()
-		if a == nil || (*a != site && *a != "*") {
+		if a == nil || (*a != site && !(*a == "*" && isM)) {
 			return
 		}
 		if hitsLeft.Add(-1) != 0 {
@@ -97,6 +113,7 @@ func c02Frozen(c *core.Ctx, res *core.Result) {
 		armed.Store(nil)
 		s := site
 		frozenAt.Store(&s)
+		fgParked.Store(isF)
 		relMu.Lock()
 		ch := release
 		relMu.Unlock()
@@ -196,6 +213,18 @@ func c02Frozen(c *core.Ctx, res *core.Result) {
 				}
 			}
 		}
+		if r.Chance(35) {
+			seenMu.Lock()
+			var fg []string
+			for s := range seenFg {
+				fg = append(fg, s)
+			}
+			seenMu.Unlock()
+			sort.Strings(fg)
+			if len(fg) > 0 {
+				site = fg[r.Intn(len(fg))]
+			}
+		}
 		hitsLeft.Store(int64(r.Range(1, 4)))
 		armed.Store(&site)
 	}
@@ -230,21 +259,36 @@ func c02Frozen(c *core.Ctx, res *core.Result) {
 		pending := false
 		done := make(chan error, 1)
 		go func(op kv.Op) { done <- execUnit(op) }(units[i])
-		select {
-		case e := <-done:
-			if e != nil {
-				errored[i] = e.Error()
+		t0 := time.Now()
+	wait:
+		for {
+			select {
+			case e := <-done:
+				if e != nil {
+					errored[i] = e.Error()
+				}
+				acked = i + 1
+				break wait
+			case <-time.After(time.Millisecond):
+				if frozen.Load() && fgParked.Load() {
+					// the writer itself is parked inside this unit: let maintenance go on for a while
+					time.Sleep(time.Duration(r.Range(0, 25)) * time.Millisecond)
+					pending = true
+					res.Count("foreground_parked_inside_unit", 1)
+					break wait
+				}
+				if time.Since(t0) > 3*time.Second {
+					// the unit waits for something the parked goroutine holds
+					pending = true
+					if !frozen.Load() {
+						res.Inconclusive = fmt.Sprintf("unit %d did not return within 3s although no goroutine is parked", i)
+						stopMaint()
+						return
+					}
+					res.Count("units_blocked_by_parked_goroutine", 1)
+					break wait
+				}
 			}
-			acked = i + 1
-		case <-time.After(3 * time.Second):
-			// the unit waits for something the parked goroutine holds
-			pending = true
-			if !frozen.Load() {
-				res.Inconclusive = fmt.Sprintf("unit %d did not return within 3s although no goroutine is parked", i)
-				stopMaint()
-				return
-			}
-			res.Count("units_blocked_by_parked_goroutine", 1)
 		}
 		if extra > 0 && !pending {
 			extra--
@@ -342,4 +386,114 @@ func c02Frozen(c *core.Ctx, res *core.Result) {
 	res.Count("unit_errors", int64(len(errored)))
 	res.Sig = core.Sig("frozen", cfg.String(), snapshots, len(units))
 	res.Nontrivial = snapshots > 0
+}
+
+// c02ActiveFlush is the targeted form of one parked-goroutine schedule: an explicit flush finds no immutable
+// table and writes out the *active* one; it has rotated the log already when the writer adds more entries,
+// which the table file then contains although (without synchronous logging) their log records are still in
+// the new log's buffer. The directory is copied right after the flush returned.
+func c02ActiveFlush(c *core.Ctx, res *core.Result) {
+	r := c.Rand
+	cfg := kv.Cfg{MemTableSize: 32 << 20, MaxMemTables: 4, SyncMode: []int{0, 1}[r.Intn(2)], SyncBytes: 1 << 20, CompactSecs: 3600}
+	dir := filepath.Join(c.Dir, "db")
+	eng, err := kv.Open(dir, cfg)
+	if err != nil {
+		res.Violate("open_error", err.Error(), nil)
+		return
+	}
+	defer func() {
+		verifhook.Set(nil)
+		eng.Close()
+	}()
+	nk := r.Range(3, 10)
+	key := func(i int) []byte { return []byte(fmt.Sprintf("k%02d", i)) }
+	var units []kv.Op
+	n := 0
+	put := func(i int) kv.Op {
+		n++
+		return kv.Op{Kind: "put", Key: key(i), Val: []byte(fmt.Sprintf("c%d/%d|", c.Idx, n))}
+	}
+	do := func(op kv.Op) {
+		units = append(units, op)
+		if op.Kind == "put" {
+			eng.Put(op.Key, op.Val)
+		} else {
+			eng.Delete(op.Key)
+		}
+	}
+	for i := 0; i < nk; i++ {
+		do(put(i))
+	}
+	if r.Bool() {
+		eng.FlushImMemTables() // the first generation is in a table and in a rotated log
+		do(put(r.Intn(nk)))
+	}
+	// the flush that will write the active table; parked once its log rotation is complete
+	var parked atomic.Bool
+	release := make(chan struct{})
+	verifhook.Set(func(site string) {
+		if site == "storage.rotate.after_close" && parked.CompareAndSwap(false, true) {
+			<-release
+		}
+	})
+	done := make(chan struct{})
+	go func() { eng.FlushImMemTables(); close(done) }()
+	for i := 0; i < 3000 && !parked.Load(); i++ {
+		time.Sleep(time.Millisecond)
+	}
+	if !parked.Load() {
+		close(release)
+		<-done
+		res.Inconclusive = "the flush never reached the end of its log rotation"
+		return
+	}
+	// the writer goes on: deletes of old keys and puts of new ones
+	// (always at least: a delete of an old key, later a put of a new one - if only the put survives, no prefix matches)
+	do(kv.Op{Kind: "del", Key: key(r.Intn(nk))})
+	for i, m := 0, r.Range(0, 4); i < m; i++ {
+		if r.Chance(50) {
+			do(kv.Op{Kind: "del", Key: key(r.Intn(nk))})
+		} else {
+			do(put(nk + i))
+		}
+	}
+	do(put(nk + 9))
+	close(release)
+	<-done
+	verifhook.Set(nil)
+	res.Count("active_table_flushes_raced", 1)
+	sdir := filepath.Join(c.Dir, "snap")
+	if err := cloneDB(dir, sdir); err != nil {
+		res.Inconclusive = "copy failed: " + err.Error()
+		return
+	}
+	_, keySet := unitsOf(units)
+	var keys []string
+	for k := range keySet {
+		keys = append(keys, k)
+	}
+	sort.Strings(keys)
+	feat := map[string]string{"kind": "active_table_flush", "sync": fmt.Sprint(cfg.SyncMode)}
+	e2, err := kv.Open(sdir, cfg)
+	if err != nil {
+		res.Violate("recovery_open_failed", "the copy does not open: "+err.Error(), feat)
+		return
+	}
+	st, serr := kv.StateOf(e2.Get, keys)
+	e2.Close()
+	if serr != nil {
+		res.Violate("recovered_state_unreadable", serr.Error(), feat)
+		return
+	}
+	if m, _, closest, diff := kv.MatchPrefix(kv.NewModel(), units, nil, st, keys, 0, len(units)); len(m) == 0 {
+		var sb strings.Builder
+		for u := max(0, closest-2); u < len(units); u++ {
+			fmt.Fprintf(&sb, "unit %d: %s\n", u, units[u].String())
+		}
+		res.Violate("recovered_state_not_a_prefix", fmt.Sprintf("config %s: an explicit flush with no immutable table pending wrote out the active table; it had rotated the log when the writer issued units %d..%d; directory copied after the flush returned: the recovered state matches no prefix of the %d units; closest prefix %d differs at: %s\n%s",
+			cfg, nk, len(units)-1, len(units), closest, diff, sb.String()), feat)
+		return
+	}
+	res.Sig = core.Sig("activeflush", cfg.SyncMode, nk, len(units))
+	res.Nontrivial = true
 }
